@@ -165,9 +165,15 @@ let item_monitors (node_hash, decode, decode_account) (it : item) (iv : string) 
     (match expected_stored req with
      | Some e ->
        if starts ip "ok:" then begin
-         if ip <> "ok:" ^ hexs e then add "stored-not-final-node" (Printf.sprintf "tag=%s stored=%s" tag (String.sub ip 0 (min 80 (String.length ip))));
+         if ip <> "ok:" ^ hexs e then begin
+           (* the offered final node / code is inside the stored value, with other bytes around it *)
+           let payload = (match ub e with _ :: _ :: _ :: _ :: pl -> Util.hex_of_bytes pl | _ -> "-") in
+           let key = if payload <> "-" && contains ip payload then "stored-payload-differs-from-offered" else "stored-not-final-node" in
+           add key (Printf.sprintf "tag=%s stored=%s" tag (String.sub ip 0 (min 80 (String.length ip))))
+         end;
          ()
-       end else if starts ip "panic" then add "put-panics-after-accept" (tag ^ " " ^ ip)
+       end else if ip = "ok-store-failed" || ip = "-novalue-" then ()   (* scripted store fault / Put not part of this line *)
+       else if starts ip "panic" then add "put-panics-after-accept" (tag ^ " " ^ ip)
        else begin
          (* a bytecode item passes ValidateContent on the account's code hash alone; the code bytes are bound to the key by
             Put (keccak(code) = key.CodeHash).  Validator-ok + Put-err is therefore a rejection, not an acceptance, exactly when
@@ -243,14 +249,49 @@ let handle fields impl : string option * string list =
       | Ok s -> "ok:" ^ hexs s | Err _ -> "err" | Panic -> if starts ip "panic" then ip else "panic" in
     let mk = match put node_hash it.req with Ok s -> stored_hash node_hash s | _ -> "-" in
     (Some ("v:" ^ mv ^ " p:" ^ mp ^ " k:" ^ mk), item_monitors orc it iv ip ik "")
+  | ["conc"; steps] ->
+    (* two OVERLAPPING ValidateContent calls on one validator: each verdict is the model's verdict on that item alone *)
+    let items = List.map (fun st -> match String.split_on_char '^' st with
+        | [tag; kind; oracle; blockhash; addrhash; path; keyhash; code; codek; acctproof; mainproof; tbl; accts] ->
+          parse_item tag kind oracle blockhash addrhash path keyhash code codek acctproof mainproof tbl accts
+        | _ -> failwith "conc step") (String.split_on_char '@' steps) in
+    let (node_hash, decode, decode_account) as orc = oracles items in
+    let ivs = List.map (fun o -> if starts o "v:" then String.sub o 2 (String.length o - 2) else failwith "conc obs") (String.split_on_char '@' impl) in
+    if List.length ivs <> List.length items then failwith "conc observation";
+    let mvs = List.map2 (fun it iv ->
+        match validate_content node_hash decode decode_account (header_of it) it.req with
+        | Ok () -> "v:ok" | Err _ -> "v:err" | Panic -> if starts iv "panic" then "v:" ^ iv else "v:panic") items ivs in
+    let with_addr it addr = match it.req with
+      | RStorageNode (_, p, nh, sp, ap, bh) -> Some (RStorageNode (addr, p, nh, sp, ap, bh))
+      | RBytecode (_, ch, code, ap, bh) -> Some (RBytecode (addr, ch, code, ap, bh))
+      | _ -> None in
+    let addr_of it = match it.req with
+      | RStorageNode (a, _, _, _, _, _) -> Some a | RBytecode (a, _, _, _, _) -> Some a | _ -> None in
+    let n = List.length items in
+    let mons = List.concat (List.mapi (fun i (it, iv) ->
+        let ms = item_monitors orc it iv "-novalue-" "-" (Printf.sprintf "@call%d/%d-overlapping-calls" (i + 1) n) in
+        (* accepted although its own chain predicate is false, and it WOULD hold along the other item's address path *)
+        let walked_other_path =
+          iv = "ok" && snd (content_verdict node_hash decode decode_account (header_of it) it.req) <> v_OK &&
+          List.exists (fun other -> match addr_of other with
+              | Some a -> (match with_addr it a with
+                  | Some r' -> snd (content_verdict node_hash decode decode_account (header_of it) r') = v_OK
+                  | None -> false)
+              | None -> false) items in
+        if walked_other_path then
+          [Printf.sprintf "accepted-wrong-path tag=%s@call%d/%d overlapping-calls: the account proof holds along the OTHER item's address path, not along its own" it.tag (i + 1) n]
+        else ms) (List.combine items ivs)) in
+    (Some (String.concat "@" mvs), mons)
   | ["hist"; _n; steps] ->
     (* one validator instance and one storage through a sequence of items; the header source is scripted per step *)
     let items = List.map (fun st -> match String.split_on_char '^' st with
-        | [tag; kind; oracle; blockhash; addrhash; path; keyhash; code; codek; acctproof; mainproof; tbl; accts; id] ->
-          (parse_item tag kind oracle blockhash addrhash path keyhash code codek acctproof mainproof tbl accts, hexb id)
+        | [tag; kind; oracle; blockhash; addrhash; path; keyhash; code; codek; acctproof; mainproof; tbl; accts; id; sf] ->
+          (parse_item tag kind oracle blockhash addrhash path keyhash code codek acctproof mainproof tbl accts, (hexb id, sf <> "1"))
         | _ -> failwith "hist step") (String.split_on_char '@' steps) in
+    let store_ok = List.map (fun (_, (_, ok)) -> ok) items in
+    let items = List.map (fun (it, (id, _)) -> (it, id)) items in
     let (node_hash, decode, decode_account) as orc = oracles (List.map fst items) in
-    let evs = List.map (fun (it, id) -> { ev_header = header_of it; ev_id = id; ev_req = it.req }) items in
+    let evs = List.map2 (fun (it, id) ok -> { ev_header = header_of it; ev_id = id; ev_req = it.req; ev_store_ok = ok }) items store_ok in
     let ((_, store), outs) = run_history node_hash decode decode_account ((), []) evs in
     (* implementation observations: v:<r>,p:<r>@...@S:<store> *)
     let parts = String.split_on_char '@' impl in
@@ -262,13 +303,14 @@ let handle fields impl : string option * string list =
         (String.sub v 2 (String.length v - 2), (String.sub p 2 (String.length p - 2), String.sub k 2 (String.length k - 2)))
       | _ -> failwith "hist step observation" in
     let iobs = List.map split_obs iobs in
-    let mobs = List.map2 (fun (v, p) (iv, (ip, _)) ->
+    let mobs = List.map2 (fun ((v, p), ok) (iv, (ip, _)) ->
         let mv = match v with Ok () -> "ok" | Err _ -> "err" | Panic -> if starts iv "panic" then iv else "panic" in
         let mp = match p with
           | None -> "-"
-          | Some (Ok s) -> "ok:" ^ hexs s | Some (Err _) -> "err" | Some Panic -> if starts ip "panic" then ip else "panic" in
-        let mk = match p with Some (Ok s) -> stored_hash node_hash s | _ -> "-" in
-        "v:" ^ mv ^ ",p:" ^ mp ^ ",k:" ^ mk) outs iobs in
+          | Some (Ok s) -> if ok then "ok:" ^ hexs s else "ok-store-failed"
+          | Some (Err _) -> "err" | Some Panic -> if starts ip "panic" then ip else "panic" in
+        let mk = match p with Some (Ok s) when ok -> stored_hash node_hash s | _ -> "-" in
+        "v:" ^ mv ^ ",p:" ^ mp ^ ",k:" ^ mk) (List.combine outs store_ok) iobs in
     (* final store: every id ever used, sorted, with the model's latest value *)
     let ids = List.sort_uniq compare (List.map (fun (k, _) -> hexs k) store) in
     let mstore = List.map (fun idh -> match store_get store (hexb idh) with Some v -> idh ^ "~" ^ hexs v | None -> idh ^ "~?") ids in
@@ -283,7 +325,7 @@ let handle fields impl : string option * string list =
     let smons = List.concat_map (fun e -> match String.split_on_char '~' e with
         | [idh; vh] ->
           let justified = List.exists2 (fun (it, id) (iv, (ip, _)) ->
-              hexs id = idh && iv = "ok" && (match expected_stored it.req with Some x -> hexs x = vh | None -> false)
+              hexs id = idh && iv = "ok" && ip <> "ok-store-failed" && (match expected_stored it.req with Some x -> hexs x = vh | None -> false)
               && snd (content_verdict node_hash decode decode_account (header_of it) it.req) = v_OK) items iobs in
           if justified then [] else ["history-store-holds-unjustified-entry id=" ^ idh]
         | _ -> ["history-store-unparsable " ^ e]) (split_on ';' istore) in
